@@ -299,27 +299,57 @@ Proof.
   - replace (c <? 0x10000) with true by lia. reflexivity.
 Qed.
 
-Theorem detect_nobom_outside e c rest : 0 < c < 128 -> Forall scalar rest ->
-  nobom_defect e rest = false -> detect (text_bytes e (c :: rest)) = Ok (e, 0%nat).
+Lemma starts_00_firstn l j : starts_00 l = false -> starts_00 (firstn j l) = false.
 Proof.
-  intros Hc Hs Hd. rewrite text_bytes_cons. unfold text_bytes at 1.
+  intros H. destruct j as [|[|j]]; try reflexivity.
+  - destruct l as [|x l]; [reflexivity|]. cbn. destruct x; reflexivity.
+  - destruct l as [|x [|y l]]; try exact H; try reflexivity.
+    all: cbn; destruct x; reflexivity.
+Qed.
+
+Lemma firstn_cons_S {A} (x : A) l k : (1 <= k)%nat -> firstn k (x :: l) = x :: firstn (k - 1) l.
+Proof. intros H. destruct k; [lia|]. replace (S k - 1)%nat with k by lia. reflexivity. Qed.
+
+Lemma Forall_firstn {A} (P : A -> Prop) l k : Forall P l -> Forall P (firstn k l).
+Proof.
+  intros H. rewrite <- (firstn_skipn k l) in H. apply Forall_app in H. apply H.
+Qed.
+
+(* the verdict on the first k >= 4 bytes of a BOM-less text (what CEncodedStreamReader looks at) *)
+Theorem detect_nobom_prefix e c rest k : (4 <= k)%nat -> 0 < c < 128 -> Forall scalar rest ->
+  nobom_defect e rest = false -> detect (firstn k (text_bytes e (c :: rest))) = Ok (e, 0%nat).
+Proof.
+  intros Hk Hc Hs Hd. rewrite text_bytes_cons. unfold text_bytes at 1.
   cbn [encs flat_map]. rewrite app_nil_r, (ascii_enc _ c Hc). cbn [units_bytes flat_map]. rewrite app_nil_r.
   pose proof (text_bytes_bytes e rest Hs) as Hb.
   destruct e; cbn [utf_width utf_endian unit_bytes nobom_defect] in *.
   - unfold text_bytes. cbn [utf_width]. rewrite units_bytes_W8. cbn [app].
-    apply detect_utf8_bytes; [exact Hc | apply encs8_nonzero; assumption].
+    rewrite firstn_cons_S by lia.
+    apply detect_utf8_bytes; [exact Hc | apply Forall_firstn; apply encs8_nonzero; assumption].
   - replace (c mod 256) with c by lia. replace (c / 256) with 0 by lia. cbn [app].
-    apply detect_utf16le_bytes; [exact Hc | exact Hb |].
-    rewrite starts_00_text16 by (try assumption; reflexivity). exact Hd.
+    rewrite firstn_cons_S by lia. rewrite firstn_cons_S by lia.
+    apply detect_utf16le_bytes; [exact Hc | apply Forall_firstn; exact Hb |].
+    apply starts_00_firstn. rewrite starts_00_text16 by (try assumption; reflexivity). exact Hd.
   - replace (c mod 256) with c by lia. replace (c / 256) with 0 by lia. cbn [app].
-    apply detect_utf16be_bytes; [exact Hc | exact Hb |].
-    rewrite starts_00_text16 by (try assumption; reflexivity). exact Hd.
+    rewrite firstn_cons_S by lia. rewrite firstn_cons_S by lia.
+    apply detect_utf16be_bytes; [exact Hc | apply Forall_firstn; exact Hb |].
+    apply starts_00_firstn. rewrite starts_00_text16 by (try assumption; reflexivity). exact Hd.
   - replace (c mod 256) with c by lia. replace (c / 256 mod 256) with 0 by lia.
     replace (c / 65536 mod 256) with 0 by lia. replace (c / 16777216) with 0 by lia. cbn [app].
+    do 4 (rewrite firstn_cons_S by lia).
     apply detect_utf32le_bytes. exact Hc.
   - replace (c mod 256) with c by lia. replace (c / 256 mod 256) with 0 by lia.
     replace (c / 65536 mod 256) with 0 by lia. replace (c / 16777216) with 0 by lia. cbn [app].
+    do 4 (rewrite firstn_cons_S by lia).
     apply detect_utf32be_bytes. exact Hc.
+Qed.
+
+Theorem detect_nobom_outside e c rest : 0 < c < 128 -> Forall scalar rest ->
+  nobom_defect e rest = false -> detect (text_bytes e (c :: rest)) = Ok (e, 0%nat).
+Proof.
+  intros Hc Hs Hd.
+  rewrite <- (firstn_all2 (text_bytes e (c :: rest)) (n := Nat.max 4 (length (text_bytes e (c :: rest))))) by lia.
+  apply detect_nobom_prefix; try assumption. lia.
 Qed.
 
 Example detect_nobom_refuted_utf8 : detect (text_bytes Utf8 [0x61; 0; 0x62]) = Ok (Utf16le, 0%nat).
